@@ -40,6 +40,8 @@ def layer_long(c, b, replay=None):
 
 
 def run(c, replay):
+    if replay:
+        replay = os.path.abspath(replay)   # workers run in their own directories
     ov = c.harness_overlay("src", FILES)
     b = c.build_test("src", ov)
     patched = patched_constants(c)
